@@ -229,6 +229,10 @@ def gen_trees(quick, seed):
     for es in ([lit_int(1)], [lit_int(1), lit_int(2)], [lst([lit_int(1)], tc=True), ident("a")]):
         add([assign("=", [ident("x")], [lst(es, tc=True)])], "list literal with a trailing comma")
         add([call("f", [lst(es, tc=True), lst(es)])], "list literal with a trailing comma as an argument")
+    for args in ([ident("a")], [ident("a"), lit_int(1)], [ident("a"), assign("=", [ident("p")], [lit_int(1)])], [lst([lit_int(1)], tc=True)]):
+        add([call("f", args, tc=True)], "call with a trailing comma")
+        add([assign("=", [ident("x")], [call("g", [call("f", args, tc=True), lit_int(2)])])], "nested call with a trailing comma")
+        add([ifs([call("f", args, tc=True)], [[call("h", args, tc=True)]])], "call with a trailing comma in a condition / block")
     add([assign("=", [ident("m")], [mp([lit_str(b"a"), lit_str(b"b")], [lit_int(1), lst([lit_int(2)], tc=True)], tc=True)])], "map literal with a trailing comma")
     # the 24 slice forms (12 shapes x identifier / other base)
     for base in (ident("a"), lit_str(b"abc"), call("f", []), lst([lit_int(1)])):
